@@ -19,6 +19,18 @@ CHECKS = {
                 "move_dist_t3; rate_t3 under |jerk|T^2<2^40, |accel|T<2^40 (superset of the firmware-valid domain by a paper argument)",
         "technique": "symbolic execution of the Python source on z3 integer terms + SMT (non-linear integer arithmetic) obligations per path, induction lemmas, counterexample replay",
     },
+    "C03": {
+        "text": "calculate_lm is executed on symbolic steps/rate/accel/accumulator (and 'clear', and the legacy negative-step form). rate/accel "
+                "is an exact rational with symbolic denominator; sqrt and the quadratic roots never reach the solver: ceil(root) is kept "
+                "lazy (comparisons become polynomial inequalities with the square root eliminated by squaring) and materialised by "
+                "solver-guided forking. The oracle is the firmware recurrence unrolled to K ticks (K = the oracle's own finishing tick, "
+                "enumerated): S(k), P(k) and the step count n(k) = sum |P(i)-P(i-1)| are linear terms; under 'n(K) >= budget > n(K-1) and "
+                "all |rate_k| <= 2^31-1' z3 proves duration = K, position = P(K), accumulator = S(K) mod 2^31 in [0,2^31); impossible "
+                "requests give (0,0,0); moveTimeLM delegates.",
+        "note": "K <= 6 (quick) / 16 (thorough), legacy form K <= 4 / 8; mp rounding of sqrt and of the root quotient at 103 bits is a "
+                "paper argument (exact-root model); the closed form S(k) is the recurrence by C01",
+        "technique": "symbolic execution of the Python source on z3 integer terms (square roots eliminated by squaring, lazy ceilings) + SMT (non-linear integer arithmetic) obligations per path, counterexample replay against a tick-by-tick simulation",
+    },
     "C04": {
         "text": "Inductive step over the real classes: every public method of EBB3/EBBMotionWrap (found by introspection) is executed "
                 "from each blocked pre-state (no port / symbolic error message recorded) with symbolic arguments against a recording "
